@@ -154,6 +154,19 @@ impl PartialEq for Value_ {
                 Value_::BuiltInFunction(other_kind, _, _),
             ) => self_kind == other_kind,
             (Value_::String(s1), Value_::String(s2)) => s1 == s2,
+            // Compare floats by representation, so every float is
+            // equal to itself and equal floats print the same.
+            (Value_::Float(f1), Value_::Float(f2)) => f1.to_bits() == f2.to_bits(),
+            (
+                Value_::Dict {
+                    items: self_items,
+                    value_type: _,
+                },
+                Value_::Dict {
+                    items: other_items,
+                    value_type: _,
+                },
+            ) => self_items == other_items,
             (
                 Value_::List {
                     items: self_items,
